@@ -1,5 +1,6 @@
 //! C02 — git state extraction is faithful to the repository history (DESIGN.md §6 C02),
 //! stateful / model-based: op sequences run against a real repository and an in-memory DAG.
+use crate::cli;
 use crate::gitlab::{self, HeadM, Model, Op, Repo};
 use crate::model::MVars;
 use crate::oracle::{pep440 as opep, semver as osem};
@@ -197,6 +198,46 @@ pub fn check_state(repo: &Repo, fmt: &str, cx: &mut Cx) -> Res {
         cx.label(["override:clean", "override:no-dirty", "override:dirty", "override:distance", "override:branch+hash", "override:no-bump-context", "override:bumped-timestamp", "override:no-dirty+distance0"][variant]);
         cx.extra_evals += 1;
     }
+    // --- source equivalence (clock-free states): the object extracted from git, piped into
+    // `--source stdin`, gives what the git source gives directly, for version with a schema and for flow
+    if !m.dirty() {
+        let variant = (m.commits.len() + 2 * m.tags.len() + fmt.len()) % 4;
+        let ron = o.out_str();
+        let run_stdin = |args: &[&str]| proc::run(&proc::Spec { args: args.iter().map(|s| s.to_string()).collect(), stdin: Some(ron.clone().into_bytes()), cwd: Some("/".into()), ..Default::default() });
+        let path = repo.path();
+        let (direct, piped, what): (proc::Out, proc::Out, String) = match variant {
+            0 | 1 => {
+                let schema = ["standard", "calver", "standard-base-prerelease-post-dev-context", "calver-no-context", "standard-context", "calver-base-prerelease-post-dev"][(m.commits.len() + m.tags.len()) % 6];
+                let of = if variant == 0 { "semver" } else { "pep440" };
+                (
+                    proc::run(&proc::Spec { args: cli::sv(&["version", "-C", &path, "--input-format", fmt, "--schema", schema, "--output-format", of]), cwd: Some("/".into()), ..Default::default() }),
+                    run_stdin(&["version", "--source", "stdin", "--schema", schema, "--output-format", of]),
+                    format!("version --schema {schema} --output-format {of}"),
+                )
+            }
+            2 => (
+                proc::run(&proc::Spec { args: cli::sv(&["flow", "-C", &path, "--input-format", fmt, "--post-mode", "commit", "--output-format", "zerv"]), cwd: Some("/".into()), ..Default::default() }),
+                run_stdin(&["flow", "--source", "stdin", "--post-mode", "commit", "--output-format", "zerv"]),
+                "flow --post-mode commit --output-format zerv".to_string(),
+            ),
+            _ => (
+                proc::run(&proc::Spec { args: cli::sv(&["flow", "-C", &path, "--input-format", fmt, "--post-mode", "commit", "--output-format", "semver"]), cwd: Some("/".into()), ..Default::default() }),
+                run_stdin(&["flow", "--source", "stdin", "--post-mode", "commit", "--output-format", "semver"]),
+                "flow --post-mode commit --output-format semver".to_string(), // (tag post-mode stamps the wall clock when ahead of the tag)
+            ),
+        };
+        if direct.timed_out || piped.timed_out {
+            infra("zerv timed out");
+            return Ok(());
+        }
+        ensure!(
+            direct.code == piped.code && direct.out_str() == piped.out_str(),
+            "`{what}` on the git source (exit {:?}) prints {:?}; on the object extracted from the same repository and piped into --source stdin (exit {:?}) it prints {:?} ({})",
+            direct.code, direct.out_str(), piped.code, piped.out_str(), ctx()
+        );
+        cx.label(["source-equivalence:version-semver", "source-equivalence:version-pep440", "source-equivalence:flow-zerv", "source-equivalence:flow-semver"][variant]);
+        cx.extra_evals += 1;
+    }
     // classification
     let nt = m.merges > 0 && anc.iter().any(|c| m.commits[*c].parents.len() > 1)
         || on_t.len() >= 2
@@ -262,6 +303,7 @@ pub fn op_strategy() -> BoxedStrategy<Op> {
         1 => Just(Op::Clean),
         1 => Just(Op::TouchUnchanged),
         1 => Just(Op::EmptyDir),
+        1 => (0usize..8).prop_map(|which| Op::BranchLikeTag { which }),
     ]
     .boxed()
 }
